@@ -1,6 +1,6 @@
 (* C07 — attribute values decode to the right type, value, sign and constant domain. *)
 From Coq Require Import ZArith NArith List Bool Lia.
-From Dwgrep Require Import Atval AtvalProofs CovModel Ranges RangesProofs.
+From Dwgrep Require Import Atval AtvalProofs CovModel Ranges RangesProofs TypeCtx TypeCtxProofs.
 Import ListNotations.
 Local Open Scope Z_scope.
 
@@ -61,7 +61,45 @@ Example C07_ranges_nonvacuous :
 Proof. split; [vm_compute; reflexivity|]. intros r H. cbn [In] in H. unfold proper, CovM.TOP.
   repeat (destruct H as [<-|H]; [cbn [fst snd]; lia|]). destruct H. Qed.
 
+(* the type context of a DW_AT_const_value (model dw/TypeCtx.v of get_type_die and the tests after it):
+   typedefs and qualifiers in front of a type are transparent, at any depth (apply repeatedly); a base type
+   gives its encoding; a pointer is a pointer whatever it points to; an enumerator takes the encoding of
+   the enumeration's underlying type *)
+Import TypeCtxM.
+Theorem C07_qualifiers_transparent : forall f ts o w o' r,
+  lookup ts o = Some w -> keep_peeling (td_tag w) = true -> td_type w = Some o' ->
+  var_ctx f ts (Some o') = Some r -> var_ctx (S f) ts (Some o) = Some r.
+Proof. exact qualifier_transparent. Qed.
+Theorem C07_base_type_gives_its_encoding : forall f ts o t e,
+  lookup ts o = Some t -> td_tag t = TAG_base_type -> td_enc t = Some e -> var_ctx (S f) ts (Some o) = Some (TEnc e).
+Proof. exact base_type_encoding. Qed.
+Theorem C07_pointer_is_pointer : forall f ts o t,
+  lookup ts o = Some t -> (td_tag t = TAG_pointer_type \/ td_tag t = TAG_ptr_to_member_type) -> var_ctx (S f) ts (Some o) = Some TPointer.
+Proof. exact pointer_is_pointer. Qed.
+Theorem C07_enumerator_takes_underlying_encoding : forall f ts p o t e,
+  td_tag p = TAG_enumeration_type -> td_type p = Some o -> lookup ts o = Some t -> td_tag t = TAG_base_type -> td_enc t = Some e ->
+  enumerator_ctx (S f) ts p = Some (TEnc e).
+Proof. exact enumerator_underlying. Qed.
+Theorem C07_context_stable_under_fuel : forall f g ts d r, (f <= g)%nat -> ctx_from f ts d = Some r -> ctx_from g ts d = Some r.
+Proof. exact ctx_more. Qed.
+(* a termination argument that is not there: the loop of get_type_die has no bound, a circular chain of
+   typedefs / qualifiers (malformed DWARF) is never left *)
+Theorem C07_circular_type_chain_never_ends : forall ts o w,
+  lookup ts o = Some w -> keep_peeling (td_tag w) = true -> td_type w = Some o -> forall f, peel f ts w = None.
+Proof. exact circular_chain_never_ends. Qed.
+Example C07_type_context_nonvacuous :
+  let ts := [(10%N, mktd TAG_typedef (Some 20%N) None false []); (20%N, mktd TAG_const_type (Some 30%N) None false []);
+             (30%N, mktd TAG_base_type None (Some 7%N) false [])] in
+  var_ctx 5 ts (Some 10%N) = Some (TEnc 7) /\ var_ctx 5 ts (Some 30%N) = Some (TEnc 7) /\ var_ctx 5 ts None = Some TNoInfo.
+Proof. vm_compute. auto. Qed.
+
 Print Assumptions C07_sext_twos_complement.
+Print Assumptions C07_qualifiers_transparent.
+Print Assumptions C07_base_type_gives_its_encoding.
+Print Assumptions C07_pointer_is_pointer.
+Print Assumptions C07_enumerator_takes_underlying_encoding.
+Print Assumptions C07_context_stable_under_fuel.
+Print Assumptions C07_circular_type_chain_never_ends.
 Print Assumptions C07_ranges_denote_stored_ranges.
 Print Assumptions C07_empty_range_entry_is_skipped.
 Print Assumptions C07_sext_unique.
